@@ -23,8 +23,12 @@ pub enum Org {
     Long33,
     /// origin on a sub-domain, RP ID of 64 bytes
     Long64,
+    /// Android app origins whose asset-link host is not in canonical spelling (RP ID absent: the
+    /// effective RP ID is the host exactly as the link spells it)
+    AndroidUpper,
+    AndroidUnicode,
 }
-pub const ORGS: [Org; 8] = [Org::HostIsRp, Org::SubDomain, Org::Port, Org::Idn, Org::Localhost, Org::Android, Org::Long33, Org::Long64];
+pub const ORGS: [Org; 10] = [Org::HostIsRp, Org::SubDomain, Org::Port, Org::Idn, Org::Localhost, Org::Android, Org::Long33, Org::Long64, Org::AndroidUpper, Org::AndroidUnicode];
 const LONG33: &str = "a-long-relying-party.example3.com";
 const LONG64: &str = "accounts.a-rather-long-relying-party-identifier.example-64.co.uk";
 pub const FP: &str = "B3:5B:68:D5:CE:84:50:55:7C:6A:55:FD:64:B5:1F:EA:C1:10:CB:36:D6:A3:52:1C:59:48:DB:3A:38:0A:34:A9";
@@ -42,12 +46,14 @@ impl Org {
             Org::Localhost => (None, "localhost", "http://localhost:8080".into()),
             Org::Long33 => (None, LONG33, format!("https://{LONG33}")),
             Org::Long64 => (Some(LONG64), LONG64, format!("https://login.{LONG64}")),
+            Org::AndroidUpper => (None, "Example.COM", format!("android:apk-key-hash:{}", b64::url_nopad(&fp_bytes()))),
+            Org::AndroidUnicode => (None, "bücher.example.com", format!("android:apk-key-hash:{}", b64::url_nopad(&fp_bytes()))),
             Org::Android => (Some("example.com"), "example.com", format!("android:apk-key-hash:{}", b64::url_nopad(&fp_bytes()))),
         }
     }
     pub fn url(self) -> Option<Url> {
         match self {
-            Org::Android => None,
+            Org::Android | Org::AndroidUpper | Org::AndroidUnicode => None,
             o => Some(Url::parse(&o.spec().2).unwrap()),
         }
     }
@@ -125,7 +131,12 @@ pub fn with_origin<R>(org: Org, f: impl FnOnce(Origin<'_>) -> R) -> R {
     match org.url() {
         Some(u) => f(Origin::Web(std::borrow::Cow::Owned(u))),
         None => {
-            let link = UnverifiedAssetLink::new("com.example.app", FP, "example.com", Url::parse("https://example.com/.well-known/assetlinks.json").unwrap()).expect("harness: asset link");
+            let host = match org {
+                Org::AndroidUpper => "Example.COM",
+                Org::AndroidUnicode => "bücher.example.com",
+                _ => "example.com",
+            };
+            let link = UnverifiedAssetLink::new("com.example.app", FP, host, Url::parse("https://example.com/.well-known/assetlinks.json").unwrap()).expect("harness: asset link");
             f(Origin::Android(link))
         }
     }
